@@ -27,3 +27,6 @@ pub proof fn std_from_refl<T>()
     ensures <T as vstd::std_specs::convert::FromSpec<T>>::obeys_from_spec(),
         forall|a: T| #[trigger] <T as vstd::std_specs::convert::FromSpec<T>>::from_spec(a) == a
 {}
+
+#[verifier::external_type_specification]
+pub struct ExLogLevel(crate::log::Level);
